@@ -485,6 +485,10 @@ func runC11(c *Ctx) {
 
 	// ---------------- L7: start check
 	c.startCheck(ia)
+
+	// ---------------- L2 (continued): no caller of a function that can raise the budget error
+	// turns that error into success
+	c.noSwallowRule()
 }
 
 // uncountedSuccess: an invocation of executeOne that ends successfully (returns nil) has either
